@@ -40,6 +40,24 @@ CLAIMS = {
         "thread_local or interior-mutability type exists (lazy_static init-once cells of Freeze payloads excepted). Holds for all input histories "
         "because no input is involved.",
    note="Trusted: rustc MIR/call resolution, mirfacts driver, rule layer; std/dependency callees assumed stateless and deterministic."),
+ "C06": dict(
+   level="other", design="DESIGN.md §4 C06",
+   technique="static analysis: per-constructor shape check of the hand-written PartialEq (HIR) against storage, capacity class and a NAL oracle; Hash-invariance premises on MIR",
+   text="For each of the 30 constructors: storage kind = capacity class = the ordering class NAL prescribes; the PartialEq arm pairs the variant only "
+        "with itself, mentions every field and has exactly the shape of its class (position-wise conjunction / HashSet equality / either-order disjunction), "
+        "fallback false. Each shape is an equivalence relation given one on the components, so reflexivity/symmetry/transitivity follow by structural "
+        "induction. Stability (same answer for values built from the same description) needs Hash invariance because set equality looks elements up by "
+        "hash: the C07 premises are checked too. Sentence/Task/value equality is derived.",
+   note="Trusted: rustc HIR/MIR, std HashSet::eq semantics, String/usize equality; the idiom recognisers of the rule layer."),
+ "C07": dict(
+   level="proof", design="DESIGN.md §4 C07",
+   technique="static analysis: per-variant Hash-arm obligations + MIR dataflow proof that the combiner is order-independent (structural induction)",
+   text="Proof by structural induction with one obligation per constructor: assuming equal components hash equally, each Hash arm is a function of the "
+        "PartialEq class of the value. Ordered variants feed only Eq-compared fields in stored order; set-like and either-order variants hand their "
+        "components to a function proven on MIR to be an unordered combiner (sink written outside loops, accumulator updated only by commutative-associative "
+        "operations of per-item digests from fresh fixed-key hashers); no sink write inside any hash-set iteration reachable from Term::hash.",
+   note="Trusted base: rustc MIR construction and call resolution; std Hash impls for String/usize/str/Box; determinism of DefaultHasher::new(); "
+        "algebra of wrapping_add/xor/wrapping_mul; the rule layer's idiom recognisers (unrecognised idioms are reported, never guessed)."),
 }
 
 NOT_YET = "check not built yet (DESIGN.md §8 build order); will be claimed once its rules run"
